@@ -107,6 +107,13 @@ func (m *mem) RepoGet(ctx context.Context, repoStr string) (Repo, error) {
 		// wgBlock prevents adding to the WG while a wg.Wait is running, GC blocks new requests
 		select {
 		case <-mr.wgBlock:
+			// a request that waited for the token behind a GC may find the store closed in the meantime
+			select {
+			case <-m.stop:
+				mr.wgBlock <- struct{}{}
+				return nil, fmt.Errorf("cannot get repo after Close")
+			default:
+			}
 			mr.wg.Add(1)
 			mr.wgBlock <- struct{}{}
 			return mr, nil
@@ -176,7 +183,10 @@ func (m *mem) Close() error {
 			continue
 		}
 		m.mu.Unlock()
+		// wait with the token held like the GC does, nothing may be added to the wait group during the wait
+		<-repo.wgBlock
 		repo.wg.Wait()
+		repo.wgBlock <- struct{}{}
 		// cancel all uploads
 		err := repo.uploads.DeleteAll()
 		if err != nil {
